@@ -369,7 +369,7 @@ def rand_term(rng, d):
     r = rng.random()
     if r < 0.45:
         return ["Comp", rand_term(rng, d - 1), rand_term(rng, d - 1)]
-    k = int(rng.integers(1, 4))
+    k = int(rng.integers(0, 4))  # also the empty and the one-member conjunction / stack
     return ["Conj" if r < 0.75 else "Stack", [rand_term(rng, d - 1) for _ in range(k)]]
 
 
@@ -415,6 +415,11 @@ def run_shard(shard, ctx):
         for t in atoms():
             do(t)
             ctx.count("atoms_enumerated")
+        for grp in ("Conj", "Stack"):
+            do([grp, []])
+            for t in atoms():
+                do([grp, [t]])
+                ctx.count("single_member_groups_enumerated")
     elif kind == "depth1":
         good = [t for t in atoms() if model(t) is not None]
         for i, t in enumerate(binaries(good, good)):
